@@ -122,3 +122,34 @@ impl Allocator {
             },
     { unimplemented!() }
 }
+
+/// clvmr::allocator::ObjectType: the kind tag carried by a NodePtr
+#[derive(Clone, Copy, PartialEq, Eq, Structural)]
+pub enum ObjectType { Pair, Bytes, SmallAtom }
+
+impl NodePtr {
+    uninterp spec fn otype(self) -> ObjectType;
+    uninterp spec fn idx(self) -> u32;
+
+    #[verifier::external_body]
+    fn object_type(self) -> (r: ObjectType)
+        ensures r == self.otype(),
+    { unimplemented!() }
+
+    #[verifier::external_body]
+    fn index(self) -> (r: u32)
+        ensures r == self.idx(),
+    { unimplemented!() }
+}
+/// the pair pointer with a given index
+uninterp spec fn pair_ptr(i: u32) -> NodePtr;
+
+/// a NodePtr is its (kind, index) pair; in every allocator a node is a pair exactly when its pointer says so
+#[verifier::external_body]
+broadcast proof fn axiom_pair_ptr(n: NodePtr)
+    ensures #[trigger] n.otype() == ObjectType::Pair ==> n == pair_ptr(n.idx()),
+{}
+#[verifier::external_body]
+broadcast proof fn axiom_ptr_kind(a: &Allocator, n: NodePtr)
+    ensures (#[trigger] a.node_view(n) is Pair) <==> n.otype() == ObjectType::Pair,
+{}
